@@ -623,8 +623,8 @@ class PDA:
         """
         pda = PDA()
         for s_from in graph:
-            if isinstance(s_from, str) and s_from.startswith("starting_"):
-                continue
+            # The edge from a "starting_" helper node has no label, so it is
+            # ignored below; a state can be named like such a node
             for s_to in graph[s_from]:
                 for transition in graph[s_from][s_to].values():
                     if "label" in transition:
